@@ -250,6 +250,7 @@ func clipS(s string, n int) string {
 }
 
 func opKind(name string) string {
+	name, _, _ = splitRespell(name)
 	switch {
 	case obs.IsSetter(name):
 		return "setter"
